@@ -3,6 +3,12 @@ import RQ.Spec.Write
 namespace RQ.Write
 open RQ RQ.Parse
 
+/-- a property of all bytes can be checked on the 256 values -/
+theorem forall_uint8 (P : UInt8 → Prop) (h : ∀ n : Fin 256, P (UInt8.ofNat n.val)) : ∀ b, P b := by
+  intro b
+  have := h ⟨b.toNat, UInt8.toNat_lt b⟩
+  simpa using this
+
 /-- the next byte (if any) satisfies `pred` -/
 def Stops (pred : UInt8 → Bool) (r : Bytes) : Prop := ∀ b r', r = b :: r' → pred b = true
 
@@ -52,7 +58,7 @@ theorem decDigits_spec : ∀ fuel n, n < fuel →
       simp only [hn, if_true]
       refine ⟨?_, ?_, by simp⟩
       · simp [decVal]; exact this.2
-      · intro x hx; simp at hx; subst hx; exact this.1
+      · intro x hx; rw [List.mem_singleton] at hx; subst hx; exact this.1
     · simp only [hn, if_false]
       have hlt : n / 10 < f := by omega
       obtain ⟨h1, h2, _⟩ := ih (n / 10) hlt
@@ -62,7 +68,7 @@ theorem decDigits_spec : ∀ fuel n, n < fuel →
       · intro x hx
         rcases List.mem_append.mp hx with hx | hx
         · exact h2 x hx
-        · simp at hx; subst hx; exact this.1
+        · rw [List.mem_singleton] at hx; subst hx; exact this.1
 
 theorem natDec_val (n : Nat) : decVal (natDec n) = n := (decDigits_spec (n+1) n (by omega)).1
 theorem natDec_digits (n : Nat) : ∀ x ∈ natDec n, isDigit x = true := (decDigits_spec (n+1) n (by omega)).2.1
@@ -100,7 +106,7 @@ theorem octDigits_spec : ∀ fuel n, n < fuel →
       simp only [hn, if_true]
       refine ⟨?_, ?_, by simp⟩
       · simp [octVal]; exact this.2
-      · intro x hx; simp at hx; subst hx; exact this.1
+      · intro x hx; rw [List.mem_singleton] at hx; subst hx; exact this.1
     · simp only [hn, if_false]
       have hlt : n / 8 < f := by omega
       obtain ⟨h1, h2, _⟩ := ih (n / 8) hlt
@@ -110,7 +116,7 @@ theorem octDigits_spec : ∀ fuel n, n < fuel →
       · intro x hx
         rcases List.mem_append.mp hx with hx | hx
         · exact h2 x hx
-        · simp at hx; subst hx; exact this.1
+        · rw [List.mem_singleton] at hx; subst hx; exact this.1
 
 theorem octDigits_length : ∀ fuel n k, n < fuel → 1 ≤ k → n < 8 ^ k → (octDigits fuel n).length ≤ k := by
   intro fuel
@@ -168,7 +174,7 @@ theorem parseMode_oct6 (m : Nat) (rest : Bytes) (h : m < 8 ^ 6) :
   obtain ⟨b, t, e⟩ := hne
   have hb : isOct b = true := hd b (by simp [e])
   have hns : isSpace b = false := by
-    revert hb; unfold isOct isSpace; revert b; decide
+    exact forall_uint8 (fun b => isOct b = true → isSpace b = false) (by decide +kernel) b hb
   rw [splitAtCond_stop (fun c => !isSpace c) (oct6 m ++ 10 :: rest)
     (by rw [e]; exact Stops_cons _ _ _ (by simp [hns]))]
   simp only []
